@@ -7,7 +7,7 @@ from checks import simcommon as sc
 MODULE = "Nice.Props.C02"
 THEOREMS = [f"Nice.Props.C02.{t}" for t in (
     "C02_compact_exact", "C02_scatter_exact", "C02_scatter_compact_roundtrip", "gather_eq", "C02_frames_concat", "C02_demux")] + [
-    "Nice.Props.C03Flow.C03_inbound_consumes_control_traffic"]
+    "Nice.Props.C03Flow.C03_inbound_consumes_control_traffic", "Nice.Props.C03Recv.demux_same_padding"]
 TRUSTED = [
     "Lean 4 kernel; axioms propext, Classical.choice, Quot.sound only (audited every run)",
     "Nice/Model/Copy.lean: hand-written models of compact_message / memcpy_buffer_to_input_message and of the >0xF800 ICE-TCP "
